@@ -770,7 +770,7 @@ const SECTION_NAMES: [&str; 24] = [
 ];
 
 /// Well-formed material to mutate.
-fn seed_sections(ch: &mut Choices, big_out: &mut bool, addr_out: &mut u8) -> Map {
+pub fn seed_sections(ch: &mut Choices, big_out: &mut bool, addr_out: &mut u8) -> Map {
     let mut map: Map = match ch.below(4) {
         0 => {
             let d = crate::fullasm::gen_fdwarf(ch, &crate::fullasm::GenOpts { max_units: 3, max_dies: 10, lines: true, bad_refs: 0 });
@@ -1198,4 +1198,40 @@ impl Prop for C01 {
     fn run_case(&self, ch: &mut Choices, cx: &mut Ctx) -> R {
         check(ch, cx)
     }
+}
+
+/// Well-formed inputs in the encoding of the `sections` fuzz target ([config][selector][u16 length][bytes]...).
+pub fn corpus_entry(seed: u64) -> Vec<u8> {
+    const NAMES: [&str; 23] = [
+        ".debug_info", ".debug_abbrev", ".debug_str", ".debug_line", ".debug_line_str", ".debug_ranges", ".debug_rnglists", ".debug_loc", ".debug_loclists", ".debug_addr", ".debug_str_offsets", ".debug_aranges", ".debug_types", ".debug_macinfo", ".debug_macro", ".debug_pubnames", ".debug_pubtypes", ".debug_names", ".debug_cu_index", ".debug_tu_index", ".debug_frame", ".eh_frame", ".eh_frame_hdr",
+    ];
+    // a deterministic pseudo-random choice string
+    let mut x = seed.wrapping_mul(0x9e37_79b9_7f4a_7c15) | 1;
+    let bytes: Vec<u8> = (0..600)
+        .map(|_| {
+            x ^= x << 13;
+            x ^= x >> 7;
+            x ^= x << 17;
+            (x >> 24) as u8
+        })
+        .collect();
+    let mut ch = Choices::new(&bytes);
+    let mut big = false;
+    let mut a = 8u8;
+    let map = seed_sections(&mut ch, &mut big, &mut a);
+    let mut out = vec![(big as u8) | match a {
+        8 => 0,
+        4 => 2,
+        2 => 4,
+        _ => 6,
+    }];
+    for (name, data) in map {
+        let Some(idx) = NAMES.iter().position(|n| *n == name) else { continue };
+        for chunk in data.chunks(0xffff) {
+            out.push(idx as u8);
+            out.extend_from_slice(&(chunk.len() as u16).to_le_bytes());
+            out.extend_from_slice(chunk);
+        }
+    }
+    out
 }
